@@ -73,6 +73,8 @@ class Planner:
             "wide": r.random() < 0.35,
             "rare_w": r.random() < 0.15,
             "icls": subset(r, ICLS, 0.5),
+            "zero_batches": r.random() < 0.25 and prop == "C12",
+            "pre_trainable": r.random() < 0.15 and prop in ("C08", "C11"),
             "fault_kinds": subset(r, cfg.get("fault_kinds", ["module", "aten", "line"]), 0.6) if cfg.get("faults") else [],
             "fault_p": r.choice([0.15, 0.3, 0.5]) if cfg.get("faults") else 0.0,
             "interrupt": r.random() < 0.5,
@@ -257,6 +259,9 @@ class Planner:
         self.deps[a.id] = a
         self.emit(ops, {"op": "build", "dep": a.id, "arch": a.arch, "in_shape": a.in_shape, "dtype": a.dtype, "init": a.init, "wcls": a.wcls})
         if quantize:
+            if self.sw.get("pre_trainable") and r.random() < 0.6:
+                # the float model arrives with some parameters already frozen by the caller (bias-only fine-tuning)
+                self.emit(ops, {"op": "set_trainable", "dep": a.id, "weights": r.random() < 0.3, "biases": r.random() < 0.8})
             self.quantize(ops, a, force)
         return a
 
@@ -295,6 +300,8 @@ class Planner:
             rank = r.choice(ranks)
             lead = [r.choice([1, 2, 3, 4, 17]) if i == 0 else r.choice([1, 2, 3]) for i in range(rank)]
         desc = {"seed": self.S.sub("input", a.id, len(a.inputs), self.nops), "lead": lead, "cls": r.choice(self.sw["icls"]), "mag": r.choice([1.0, 1.0, 0.1, 10.0, 1e-2, 1e2])}
+        if self.sw.get("zero_batches") and r.random() < 0.15:
+            desc["cls"] = "zeros"  # an all-zero (padding-only) batch
         if self.sw["qinput"] and r.random() < 0.3 and a.activations is not None:
             desc["q"] = r.choice(["qint8", "qfloat8"])
         a.inputs.append(desc)
@@ -324,6 +331,8 @@ class Planner:
         g = self.sw["grad"] or r.choice(["no_grad", "enable_grad"])
         if g != "no_grad":
             op["grad"] = g
+        if self.prop == "C13" and r.random() < 0.12:
+            op["mutate_out"] = r.choice(["mul", "div", "zero"])
         if fault:
             fd = self.fault_desc(a)
             if fd:
